@@ -25,7 +25,11 @@ static int valueConvert(MPT_INTERFACE(convertable) *conv, MPT_TYPE(type) type, v
 		}
 		return type;
 	}
-	return mpt_value_convert(val, type, ptr);
+	/* a stored value must not be reported as missing (zero): exact type match yields its type */
+	{
+		int ret = mpt_value_convert(val, type, ptr);
+		return ret ? ret : (int) val->_type;
+	}
 }
 
 /*!
